@@ -215,6 +215,7 @@ func c07Direct(id int, steps []dStep, C, B int, producers, consumers []string, n
 		}
 	}
 	ahead := false
+	kinds := map[string]string{} // consumer thread -> kind of the call it is in
 	for si, st := range steps {
 		if o.Drift != "" {
 			break
@@ -236,6 +237,7 @@ func c07Direct(id int, steps []dStep, C, B int, producers, consumers []string, n
 				ok = false
 			}
 		case "ConsStart":
+			kinds[st.T] = st.K
 			ok = th.at == "start" && d.advance(th, st.K) && th.at == "bq.take.checked"
 		case "ConsNotify": // two hops: the hook inside notifyWorkers (after its closed check), then the one after the notification
 			ok = d.advance(th, "go") && th.at == "bq.notify.checked" && d.advance(th, "go") && th.at == "bq.take.notified"
@@ -300,6 +302,11 @@ func c07Direct(id int, steps []dStep, C, B int, producers, consumers []string, n
 		}
 		if len(pool) > o.MaxPool {
 			o.MaxPool = len(pool)
+		}
+		if st.A == "ConsRecv" && kinds[st.T] == "ttake" && chl == len(st.Ch)+1 && eqInts(pool, expPool) {
+			// the timed take's timer won the select although an item was ready (the goroutine was delayed past its 300 us): the OTHER
+			// branch of the same model action - not the one this schedule takes.  The schedule cannot be followed further; no drift.
+			break
 		}
 		if chl != len(st.Ch) || !eqInts(pool, expPool) {
 			o.Drift = fmt.Sprintf("step %d %s(%s): real channel length %d / pool %v, model channel %v / pool %v (held %v)", si+1, st.A, st.T, chl, pool, st.Ch, st.Pool, st.Lval)
